@@ -716,3 +716,60 @@ def rule_dedup_conclusions(db: ProgramDB) -> List[Instance]:
     if n == 0:
         raise AnalysisError("no else-if style implementation of _required_variables_from_child_ found")
     return out
+
+
+# ---------------------------------------------------------------------------------- DEDUP-TRUTH-UP
+def rule_dedup_truth_up(db: ProgramDB) -> List[Instance]:
+    """A node asks its parent what the parent requires, telling it its OWN truth for the row.  For a conjunction (and every
+    other operator served by the base implementation) a true operand does not make the node true - the other operand may
+    fail - so for a child row known to be true the node's truth is unknown (None); for a false child row it is false.
+    Passing the child's truth up as the node's own makes an enclosing else-if conclude that its other side will not be tried
+    and leave that side's variables out of the key."""
+    from ..abseval import AbsEval, State, NONE, TRUE, FALSE, fmt
+    from ..cfg import CFG
+    out = []
+    bo = db.cls("BinaryOperator")
+    m = bo.methods.get("_required_variables_from_child_")
+    if m is None:
+        raise AnalysisError("BinaryOperator._required_variables_from_child_ not found")
+    cfg = CFG(m)
+    ups = []
+    for nd in cfg.nodes:
+        if nd.ast is None or nd.kind != "stmt":
+            continue
+        for c in ast.walk(nd.ast):
+            if isinstance(c, ast.Call) and call_attr(c) == "_required_variables_from_child_" and isinstance(c.func.value, ast.Attribute) \
+                    and c.func.value.attr == "_parent_":
+                ups.append((nd, c))
+    if not ups:
+        raise AnalysisError("BinaryOperator._required_variables_from_child_ does not ask its parent")
+
+    def attr_hook(e, st, ev):
+        if isinstance(e, ast.Attribute) and isinstance(e.value, ast.Name) and e.value.id == "self":
+            if e.attr == "_parent_":
+                return ("obj", "truthy")
+            if e.attr in ("left", "right"):
+                return ("obj", "#" + e.attr)
+        return None
+    child_param = m.positional_params[1]
+    for nd, c in ups:
+        arg = c.args[1] if len(c.args) > 1 else next((k.value for k in c.keywords if k.arg == "when_true"), None)
+        if arg is None:
+            out.append(inst("DEDUP-TRUTH-UP", VIOLATION, m, "BinaryOperator._required_variables_from_child_[own truth for a true child]",
+                            "the parent is asked without the node's truth (defaults to True)", line=c.lineno))
+            continue
+        got = {}
+        for label, tok in (("True", TRUE), ("False", FALSE), ("None", NONE)):
+            ev = AbsEval(db, m, cfg, attr_hook=attr_hook)
+            IN = ev.run(State({"when_true": tok, child_param: ("obj", "#left")}), kinds=("n",))
+            vals = set()
+            for st in IN.get(nd.id, set()):
+                vals |= set(ev.eval(arg, st))
+            got[label] = vals
+        ok = got["True"] <= {NONE} and got["False"] <= {FALSE, NONE} and got["None"] <= {NONE} and got["True"]
+        out.append(inst("DEDUP-TRUTH-UP", HOLDS if ok else VIOLATION, m, "BinaryOperator._required_variables_from_child_[own truth for a true child]",
+                        f"truth passed to the parent: child true -> {sorted(fmt(v) for v in got['True'])}, child false -> {sorted(fmt(v) for v in got['False'])}" +
+                        ("" if ok else ": a true operand is reported as a true conjunction; an enclosing or_ then leaves the variables of its other "
+                                       "side out of the key although the conjunction can still fail, and the row the other side needs is suppressed "
+                                       "as a duplicate (the result depends on the order of a domain)"), line=c.lineno))
+    return out
